@@ -373,3 +373,14 @@ _c04_base2 = contracts
 
 def contracts():
     return _c04_base2() + [trigger_contract()]
+
+
+# .param.update / trigger act on the instance whenever there is one, whatever its truth value (verified for C12)
+_c04_base_soc = contracts
+
+
+def contracts():
+    from contracts import c12 as _c12
+    c = _c12.self_or_cls_contract()
+    c.prop = "C04"
+    return _c04_base_soc() + [c]
